@@ -3,6 +3,10 @@
 S = "internal/server"
 
 CHECKS = {
+    "C01": {"level": "model_checking",
+            "parts": [{"pkg": S, "check": "c01", "shards": 16, "gomaxprocs": 2}],
+            "quick": {"budget_s": 100, "params": {"depth": 3, "alphabet": "thorough"}},
+            "thorough": {"budget_s": 900, "params": {"depth": 4}}},
     "C08": {"level": "model_checking",
             "parts": [{"pkg": S, "check": "c08", "shards": 16, "gomaxprocs": 1}],
             "quick": {"budget_s": 80}, "thorough": {"budget_s": 500}},
